@@ -9,7 +9,54 @@ _COMPONENTS_COMMON = {
     "stub": ["none of pymoca; _parse is wrapped (not replaced) to stamp the version marker"],
 }
 
+_COMPONENTS_MCACHE = {
+    "real": ["all of pymoca from the working tree (parser, tree, CasADi generator, model simplification, api.save_model / "
+             "load_model / transfer_model)", "CasADi", "pickle", "real files in a tmpfs sandbox"],
+    "simulated": ["clock (file mtimes are stamped from it)", "process boundaries (module instances of the api module)",
+                  "restart / crash at file-operation and byte granularity", "scheduling of concurrent transfer_model calls",
+                  "short raw writes (chunk knob)", "version label"],
+    "stub": ["nothing of pymoca; the C compiler of codegen mode is not interleaved (cache mode only)"],
+}
+
 CHECKS = {
+    "C19": {
+        "engine": "mcache",
+        "level": "exploration",
+        "rule": "save -> simulated process restart -> load [-> load again], optionally with a cwd change, for every model of "
+                "the pool (parameter-dependent attributes, array parameters/variables, aliases, delays with "
+                "parameter-dependent duration, strings, library classes via extends/component) x 6 option sets with seeded "
+                "literals; distinct_nontrivial = distinct (model, option set, structural variant, history shape) whose "
+                "load was compared with a fresh compile.",
+        "assumptions": ["program dimension limited to the model pool (this family contributes the storage path only)",
+                        "cache (pickle) format only; codegen format not simulated"],
+        "components": _COMPONENTS_MCACHE,
+    },
+    "C20": {
+        "engine": "mcache",
+        "level": "exploration",
+        "rule": "Seeded histories of 4-12 operations: edit a model or library file (mtime strictly later than the cache, "
+                "also after backward clock jumps), add a missing file, change option set, change version, restart, clock "
+                "jump, transfer_model; after every transfer the result is compared with a fresh compile of the current "
+                "sources. distinct_nontrivial = distinct (model, option set, pending invalidation causes, same process?, "
+                "cache present?) states at a transfer.",
+        "assumptions": ["mtime_check=False, changing the set of library folders, edits with preserved/older mtimes and "
+                        "deletions are outside the property's precondition and not generated", "cache mode only"],
+        "components": _COMPONENTS_MCACHE,
+    },
+    "C21": {
+        "engine": "mcache",
+        "level": "fault_enumeration",
+        "rule": "crash: the cache write is traced on the tree under test, then re-executed with a process kill before "
+                "every file operation of the write and inside the raw writes at byte offsets (quick: 200 seeded "
+                "offsets for 2 models, thorough: every offset for every pool model), with and without an older cache "
+                "file; trunc: every strict prefix (quick: 150) of a complete cache file; race: seeded interleavings of "
+                "2-3 transfer_model calls at file-operation granularity with short-write chunking. After each, a new "
+                "process must get a correct model twice. distinct_nontrivial = distinct crash points that fired + "
+                "distinct truncation lengths + distinct race schedule signatures.",
+        "assumptions": ["process-kill durability (bytes handed to write() are on disk, in order); power-loss reordering is "
+                        "not simulated", "cache mode only"],
+        "components": _COMPONENTS_MCACHE,
+    },
     "C01": {
         "engine": "pcache_seq",
         "level": "exploration",
@@ -42,6 +89,38 @@ CHECKS = {
 }
 
 MANIFEST_TEXT = {
+    "C19": {
+        "level_text": "Storage round trip (save, simulated restart, load) of a model pool x option sets, every load compared "
+                      "numerically with a fresh compile (variables, types, attributes at seeded parameter points, outputs, "
+                      "delays, strings, alias relation, the four functions at seeded inputs). Scoped to what this family "
+                      "can add: the storage path, not the space of programs.",
+        "design_ref": "DESIGN.md 3.C19",
+        "level_note": "Pool models only; pickle format only; the comparator is the C19 statement made executable and was "
+                      "calibrated on 86 (test model, option set) pairs.",
+        "technique": "deterministic simulation: save / simulated-process restart / load histories with a fresh-compile "
+                     "reference model",
+    },
+    "C20": {
+        "level_text": "Seeded histories of edits with controlled mtimes (simulated clock incl. backward jumps), added files, "
+                      "option and version changes and restarts; every transfer_model result is compared with a fresh "
+                      "compile of the current sources.",
+        "design_ref": "DESIGN.md 3.C20",
+        "level_note": "Cache mode only (codegen's dlopen state cannot be restarted inside one OS process); histories are "
+                      "sampled.",
+        "technique": "deterministic simulation: seeded edit/clock/version/restart histories against a fresh-compile "
+                     "reference model",
+    },
+    "C21": {
+        "level_text": "Fault enumeration over the crash points of the cache write as traced on the tree under test (every "
+                      "file operation, byte offsets inside raw writes), every strict prefix of a complete cache file, and "
+                      "seeded reader/writer and writer/writer interleavings; after each, two later transfer_model calls "
+                      "must return models equal to a fresh compile.",
+        "design_ref": "DESIGN.md 3.C21",
+        "level_note": "Process-kill model of durability; quick tier samples byte offsets, thorough enumerates all of them "
+                      "(exhaustive only in thorough).",
+        "technique": "deterministic simulation with fault injection: crash-point enumeration at the file seam + seeded "
+                     "interleavings, fresh-compile oracle",
+    },
     "C01": {
         "level_text": "Seeded search over cache histories with restart, crash, clock, version and corruption faults against "
                       "the real parse() on a real SQLite file; after every parse the returned tree is compared "
@@ -92,9 +171,6 @@ NOT_APPLICABLE = {
     "C05": "in-family engine (flatten_hist) designed in DESIGN.md but not built yet",
     "C06": "in-family engine (copy_hist) designed in DESIGN.md but not built yet",
     "C17": "in-family engine (alias_hist) designed in DESIGN.md but not built yet",
-    "C19": "in-family engine (mcache) designed in DESIGN.md but not built yet",
-    "C20": "in-family engine (mcache) designed in DESIGN.md but not built yet",
-    "C21": "in-family engine (mcache) designed in DESIGN.md but not built yet",
     "C26": "in-family engine (cli_faults) designed in DESIGN.md but not built yet",
     "C27": "in-family engine (lib_order) designed in DESIGN.md but not built yet",
 }
